@@ -184,6 +184,18 @@ func genSeqPlan(r *rand.Rand, focus string) *ProxyPlan {
 			reqs[i].ReadChunk = []int{100, 4096}[r.IntN(2)]
 		}
 	}
+	if focus != "c06" && r.IntN(4) == 0 && len(reqs) >= 2 {
+		// the operator changes the cache policy while the proxy is running
+		docs := []string{
+			`{"proxy":{"cache_policy":{"ignore_cache_control":true}}}`, `{"proxy":{"cache_policy":{"ignore_cache_control":false}}}`,
+			`{"proxy":{"cache_policy":{"force_default_max_age":true}}}`, `{"proxy":{"cache_policy":{"force_default_max_age":false}}}`,
+			`{"proxy":{"cache_policy":{"default_max_age":"1s"}}}`, `{"proxy":{"cache_policy":{"default_max_age":"1h0m0s"}}}`,
+			`{"proxy":{"cache_policy":{"ignore_cache_control":false,"force_default_max_age":false}}}`,
+		}
+		at := 1 + r.IntN(len(reqs)-1)
+		op := PReq{Cfg: docs[r.IntN(len(docs))], AtMs: reqs[at].AtMs}
+		reqs = append(reqs[:at], append([]PReq{op}, reqs[at:]...)...)
+	}
 	p.Res = []PRes{res}
 	p.Clients = [][]PReq{reqs}
 	return p
